@@ -20,7 +20,7 @@ CFG = {
             "real cellPixelSize. Round 3: kitty draws into tight windows (0..5 x 0..3 cells; about 1 in 11 draws is refused as too large), 400 rescaled block images of "
             "kinds half/full (image.NRGBA source) and halfp/fullp (image.RGBA source), half of them translucent, up to 9x12 px into boxes down to 1x1, compared cell by cell with the scaler model; unscaled "
             "premultiplied 1x2 images at every alpha level. Round 4: 1500 (thorough 15000) block images with real *image.Gray, *image.Paletted (color.NRGBA palette, half of them with translucent entries), *image.YCbCr (all four subsampling ratios, incl. values that clamp) and opaque *image.NRGBA64, crops (SubImage) of a larger *image.NRGBA "
-            "sources, 2/3 rescaled; every rendered frame reports ALL graphics commands in the order written (Q=: delete / place / complete PNG transmission with its pixel size / sixel). A case = one #case block; distinct by its op list; "
+            "sources, 2/3 rescaled; every rendered frame reports ALL graphics commands in the order written (Q=: delete / place / complete PNG transmission with its pixel size and, for opaque pictures, a digest of the decoded pixels / sixel); half of the kitty images are opaque, a third of the images of the directed in-place histories are crops. A case = one #case block; distinct by its op list; "
             "non-trivial = not a bare state snapshot",
     "technique": "Lean 4 proof over executable models of image.go / vaxis.go render / window.go Clear whose arm structure, guards, loops and statement order are regenerated from the source and INTERPRETED "
                  "(resizeImage arms, cellPixelSize, Resize arithmetic, Draw gates, render's placement stretch in source order, the kitty upload bodies, the block Draw loops); induction over all "
@@ -77,7 +77,7 @@ CFG = {
                   "placement inside its window (F120), rescaled opaque images show colours of source pixels under each cell (independent of the index formula), last odd row of a full-block image "
                   "in its own colour (F220); round 4: the order-sensitive terminal model run on the implementation's ORDERED command sequence - every a=p finds the data of the image's last Resize, after every frame the terminal's table = the (image, origin) pairs the application drew "
                   "(not judged from a frame with a key clash on: keyfun_needed); the hypothesis SameAs for *image.Gray / *image.Paletted sources and the transcribed YCbCr conversion / subsampling (1000 images per quick run through the real scaler and renderers). That the scaler model is x/image's code (hand-transcribed, tied by about 1 600 rescaled images per quick run). Modelled, not verified: translucent 16-bit source types (inside the any-source theorems, not exercised), which of the two terminal models a given terminal implements (the oracle runs the lenient one), "
-                  "nothing about the content of the PNG / sixel data beyond the PNG's pixel size.",
+                  "the content of the PNG a kitty placement transmits is compared with the model's scaling only for opaque images (digest of the decoded pixels; correspondence, no theorem about the encoder), nothing about the sixel data.",
     "assumptions": ["image dimensions >= 1 (empty images are out of scope); box dimensions are any Int (round 2); the model's images start at the origin - since the F420 repair resizeImage translates any other image there first (Gen.resizeOriginNormalised)",
                     "col,row of a placement within 0..65535 (the kitty placement id packs col<<16|row)",
                     "fit_no_upscale_aspect_std: every dimension of image and box below 2^26 and the standard model of floating-point arithmetic (StdModel); the other fit theorems: Sound",
